@@ -107,6 +107,9 @@ pub enum BIP32Error {
     /// Invalid child key, it cannot be greater than the group order (extremely unlikely)
     #[error("Invalid child key, cannot be greater than the group order")]
     InvalidChildScalar,
+    /// Derivation path is deeper than the 255 levels a BIP32 key can record
+    #[error("Derivation path is too deep, at most 255 levels are supported")]
+    PathTooDeep,
 }
 
 impl XPubKey {
@@ -226,9 +229,19 @@ pub fn derive_xpub(
     let mut chain_code = root_chain_code;
     let mut parent_fingerprint: [u8; 4] = [0u8; 4];
 
+    // The point at infinity has no 33-byte compressed encoding
+    if *root_public_key == ProjectivePoint::IDENTITY {
+        return Err(BIP32Error::PubkeyPointAtInfinity);
+    }
+
     let path = chain_path.path();
 
     let depth = path.len();
+
+    // The depth field of an extended key is a single byte
+    if depth > u8::MAX as usize {
+        return Err(BIP32Error::PathTooDeep);
+    }
 
     let final_child_num = if depth == 0 {
         &ChildIndex::Normal(0)
